@@ -36,6 +36,12 @@ def wire_scenarios(tier, rng):
     for j in range(6 if tier == "quick" else 60):
         callers = ["L" + rng.choice(["", "L", "0"]), "L", rng.choice(["0101", "s0g1", "1g1g", "2121"]), rng.choice(["g0g0", "0s0u", "2g2u"])]
         out.append({"id": "wl%d" % j, "callers": callers, "inbound": rng.randint(2, 6), "chunk": rng.choice([512, 1024, 4096]), "extra": False})
+    # many writers of medium / large messages at once: whoever releases the write lock between two parts of one packet
+    # meets a waiter (Go's mutex hands the lock over to a waiter that has been starving for more than 1 ms)
+    for j in range(10 if tier == "quick" else 100):
+        k = rng.randint(6, 9)
+        callers = [rng.choice(["MMMM", "MLMM", "M0M1M", "LMM", "MM2M", "MgMsM"]) for _ in range(k)]
+        out.append({"id": "wm%d" % j, "callers": callers, "inbound": rng.randint(0, 3), "chunk": rng.choice([64, 128, 256]), "extra": False})
     return out
 
 
